@@ -536,6 +536,8 @@ def translate(repo: str, module: str = "GeneratedGuards") -> tuple[str, dict]:
         if sp.get("module", "GeneratedGuards") != module:
             continue
         try:
+            if os.environ.get("OFV_TRANSLATE_FORCE_FALLBACK") == "1":      # self-test of the fall-back route
+                raise NotTranslatable("forced")
             if sp["file"] not in trees:
                 trees[sp["file"]] = ast.parse(open(os.path.join(repo, sp["file"])).read())
             fn = _find(trees[sp["file"]], sp["cls"], sp["func"])
